@@ -87,6 +87,9 @@ type Pass struct {
 	Terminal     string `json:"terminal,omitempty"`        // "" = io.EOF | ueof = io.ErrUnexpectedEOF | err = other error
 	Transient    int    `json:"transient,omitempty"`       // k > 0: one transient error is returned at offset k-1, the stream then continues
 	ZeroNilAtEnd bool   `json:"zero_nil_at_end,omitempty"` // a zero-length Read at the end returns (0, nil) like os.File
+	// entries reader and reg: the headers (reader: blob.WithHeader) state the digest and length of the
+	// stream that is actually served instead of the requested digest (a source vouching for its own bytes)
+	HdrOfServed bool `json:"hdr_of_served,omitempty"`
 	// entry reg only
 	Gets []Get `json:"gets,omitempty"` // answers to the successive GETs of this pass (further GETs are answered correctly)
 	// entry ocidir only
@@ -172,7 +175,7 @@ func genContent(ch chooser, mode string) Content {
 	}
 	switch weighted(ch, "content", w...) {
 	case 1:
-		return Content{Kind: "zeros", N: []int{0, 1, 511, 512, 1024, 1536}[ch.Int(0, 5, "zeros")]}
+		return Content{Kind: "zeros", N: []int{1024, 0, 1, 511, 512, 1536, 4608, 10240}[ch.Int(0, 7, "zeros")]}
 	case 2:
 		c := Content{Kind: "tar", Seed: ch.Int(0, 50, "cseed"), Gzip: chance(ch, "gzip", 1, 3)}
 		n := ch.Int(0, 3, "nfiles")
@@ -184,7 +187,7 @@ func genContent(ch chooser, mode string) Content {
 		return Content{Kind: "json", N: ch.Int(0, 40, "pad"), Seed: ch.Int(0, 50, "cseed")}
 	case 4:
 		return Content{Kind: "raw", Seed: ch.Int(0, 50, "cseed"),
-			N: []int{511, 512, 513, 4095, 4096, 4097, 32767, 32768, 32769, 65537}[ch.Int(0, 9, "bign")]}
+			N: []int{511, 512, 513, 4095, 4096, 4097, 32767, 32768, 32769, 65536, 65537}[ch.Int(0, 10, "bign")]}
 	}
 	n := 0
 	switch weighted(ch, "lenclass", 50, 10, 8, 32) {
@@ -341,6 +344,7 @@ func genPass(ch chooser, c *Case, idx int, n int) Pass {
 	p.Corr = genCorruption(ch, "corr", n, pNone)
 	p.Chunks = genChunks(ch, n)
 	p.EOFWithData = chance(ch, "eofdata", 1, 3)
+	p.HdrOfServed = chance(ch, "hdrserved", 1, 5)
 	entry := c.Entry
 	if entry == "data" {
 		entry = c.Backing
